@@ -25,6 +25,10 @@ inductive Ev
   | accept (r : Req)       -- BranchCommit accepted (answered PhaseTwo_Committed)
   | proc (ok : Bool)       -- the worker takes the next queued request: the delete goes through, or a
                            -- transient failure (unknown resource, no connection, failed DELETE) re-queues it
+  | batch (noConn : List Nat) (failed : List Req)
+                           -- the worker takes the WHOLE queue as one batch, grouped by resource: a resource in
+                           -- `noConn` gives no connection (its requests go back), a request in `failed` fails its
+                           -- DELETE (goes back), everything else is deleted — whatever happens to the other groups
   deriving Repr, DecidableEq
 
 def step (s : St) : Ev → St
@@ -35,6 +39,20 @@ def step (s : St) : Ev → St
     | r :: rest =>
       if ok then { s with queue := rest, rows := s.rows.filter fun row => row != r }
       else { s with queue := rest ++ [r] }
+  | .batch noConn failed =>
+    let back := s.queue.filter fun r => noConn.contains r.res || failed.contains r
+    let done := s.queue.filter fun r => !(noConn.contains r.res || failed.contains r)
+    { s with queue := back, rows := s.rows.filter fun row => !done.contains row }
+
+/-- the batch before the repair (finding C11-outage-of-one-resource-loses-the-others): the groups are visited in
+    the order a map gives them out; the first resource without a connection has its requests put back, and the
+    panic that follows ends the batch — the groups not visited yet are neither processed nor put back -/
+def batchBeforeFix (s : St) (order : List Nat) (noConn : List Nat) : St :=
+  let visited := order.takeWhile fun res => !noConn.contains res
+  let done := s.queue.filter fun r => visited.contains r.res
+  match (order.dropWhile fun res => !noConn.contains res).head? with
+  | none => { s with queue := [], rows := s.rows.filter fun row => !done.contains row }
+  | some bad => { s with queue := s.queue.filter (fun r => r.res == bad), rows := s.rows.filter fun row => !done.contains row }
 
 def run (s : St) (es : List Ev) : St := es.foldl step s
 
